@@ -139,7 +139,7 @@ impl Property for C16 {
     fn cases(&self, tier: Tier) -> u64 {
         match tier {
             Tier::Quick => 60_000,
-            Tier::Thorough => 600_000,
+            Tier::Thorough => 700_000,
         }
     }
     fn required_labels(&self, _tier: Tier) -> Vec<&'static str> {
